@@ -101,7 +101,7 @@ class Engine:
         return xs, box
 
     def run_kernel(self, fname, window, mp, mask, mask2=None, mode="f64", numeric=None, numeric2=None,
-                   extra_args=None):
+                   extra_args=None, pre_assume=None):
         """Execute `fname` (an outer *_to function) on a series described by `mask`."""
         t0 = time.time()
         fn = self.fns.get(fname)
@@ -109,6 +109,7 @@ class Engine:
             raise ExecError(f"function {fname} not found in the MIR dump (renamed or removed?)")
         ex = Executor(self.fns, self.solver, self.consts, natives.NATIVES, mode)
         ex.numeric = numeric is not None
+        ex.normalizer = None      # (normalising validity queries made ts_vcorr 90x slower; measured)
         xs, box = self.make_series("x", mask, numeric)
         ex.series = {"self": xs}
         ex.assumptions.extend(box)
@@ -116,6 +117,8 @@ class Engine:
             ys, box2 = self.make_series("y", mask2, numeric2)
             ex.series["other"] = ys
             ex.assumptions.extend(box2)
+        if pre_assume is not None:
+            ex.assumptions.extend(pre_assume(ex.series))
         args = []
         extra = list(extra_args or [])
         for (lid, ty) in fn.args:
